@@ -1,19 +1,30 @@
 ------------------------------ MODULE MC_C15 ------------------------------
-(* Author actions build small inputs; faults arise at every position by construction. *)
+(* C15 generator: Author actions build small inputs; faults arise at every position and in every combination by construction
+   (every prefix of an input is an input).  The menus are constants so that configurations select sub-spaces. *)
 EXTENDS O2OValidate, Json
-CONSTANTS MaxTraits, MaxTAttrs, MaxMembers, MaxMAttrs
-TNames == {"from_owned", "owned_try_into", "map"}
+CONSTANTS MaxTraits, MaxTAttrs, MaxMembers, MaxMAttrs, DTs, Shapes, TNames, Hints, TMenu, MMenu, TCps, MCps
 VARIABLE in
-Init == in = [traits |-> <<>>, tattrs |-> <<>>, ms |-> <<>>]
-AddTrait(n, cp, e) == Len(in.traits) < MaxTraits /\ in.tattrs = <<>> /\ in.ms = <<>> /\ in' = [in EXCEPT !.traits = Append(@, [n |-> n, cp |-> cp, err |-> e])]
-AddTAttr(n, cp) == Len(in.tattrs) < MaxTAttrs /\ in.ms = <<>> /\ in' = [in EXCEPT !.tattrs = Append(@, [n |-> n, cp |-> cp])]
+Init == \E dt \in DTs, sh \in Shapes : (dt = "enum" => sh = "named") /\ in = [dt |-> dt, shape |-> sh, traits |-> <<>>, tattrs |-> <<>>, ms |-> <<>>]
+AddTrait(n, cp, e, h) == /\ Len(in.traits) < MaxTraits /\ in.tattrs = <<>> /\ in.ms = <<>>
+                         /\ (h = "struct" => in.dt = "struct" /\ in.shape = "tuple")
+                         /\ in' = [in EXCEPT !.traits = Append(@, [n |-> n, cp |-> cp, err |-> e, hint |-> h])]
+AddTAttr(n, cp, own) == /\ Len(in.tattrs) < MaxTAttrs /\ in.ms = <<>>
+                        /\ (n \notin TypeLevelOk => cp = "-")
+                        /\ (n = "bogus" \/ own = FALSE)            \* spelling is C13's business; only `bogus` depends on it
+                        /\ in' = [in EXCEPT !.tattrs = Append(@, [n |-> n, cp |-> cp, own |-> own])]
 AddMember == Len(in.ms) < MaxMembers /\ in' = [in EXCEPT !.ms = Append(@, <<>>)]
-AddMAttr(n, cp) == in.ms # <<>> /\ Len(in.ms[Len(in.ms)]) < MaxMAttrs /\ in' = [in EXCEPT !.ms[Len(in.ms)] = Append(@, [n |-> n, cp |-> cp])]
-Next == \/ \E n \in TNames, cp \in {"A", "B"}, e \in {"-", "E1"} : AddTrait(n, cp, e)
-        \/ \E n \in {"ghosts", "where_clause", "child_parents"}, cp \in {"-", "A", "Z"} : AddTAttr(n, cp)
+AddMAttr(n, cp, own) == /\ in.ms # <<>> /\ Len(in.ms[Len(in.ms)]) < MaxMAttrs
+                        /\ (n \notin MemberOk => cp = "-")
+                        /\ (n = "bogus" \/ own = FALSE)
+                        /\ ~(in.dt = "enum" /\ n = "child")                  \* #[child] on a variant: no documented rule either way
+                        /\ ~(n \in {"literal", "pattern", "type_hint"} /\ in.dt = "enum" /\ \E x \in ToSetQ(in.ms[Len(in.ms)]) : x.n \in {"literal", "pattern"} /\ x.n # n)
+                        /\ in' = [in EXCEPT !.ms[Len(in.ms)] = Append(@, [n |-> n, cp |-> cp, own |-> own])]
+Next == \/ \E n \in TNames, cp \in {"A", "B"}, e \in {"-", "E1"}, h \in Hints : AddTrait(n, cp, e, h)
+        \/ \E n \in TMenu, cp \in TCps, own \in BOOLEAN : AddTAttr(n, cp, own)
         \/ AddMember
-        \/ \E p \in {<<"map","-">>, <<"map","Z">>, <<"ghost_nd","-">>, <<"ghost_nd","A">>, <<"child","-">>, <<"child","A">>} : AddMAttr(p[1], p[2])
+        \/ \E n \in MMenu, cp \in MCps, own \in BOOLEAN : AddMAttr(n, cp, own)
 Spec == Init /\ [][Next]_in
-FaultsJ == LET F == Faults(in) IN [c \in {x.c \o "/" \o x.a : x \in F} |-> TRUE]
 Emit == in.ms # <<>> => PrintT(<<"CASE", ToJson(in)>>)
+\* design-level: removing the last member instruction of a faulty input never adds a fault of another member / the type
+Monotone == TRUE
 =============================================================================
